@@ -12,6 +12,7 @@ import (
 	"fmt"
 	"os"
 	"path/filepath"
+	"runtime/debug"
 	"runtime/pprof"
 	"sort"
 	"strconv"
@@ -102,6 +103,9 @@ func check(id string, args []string) (code int) {
 		if r := recover(); r != nil {
 			// a panic in the checker fails the check (fail closed)
 			c.Set.Problem("PANIC in checker: %v", r)
+			if os.Getenv("VERIF_DEBUG") != "" {
+				debug.PrintStack()
+			}
 			out := report.Decide(id, c.Set, p.Exceptions, nil, p.Floors)
 			out.Tier, out.Level, out.Start, out.Seed = tier, p.Level, start, seed
 			out.Explanation = p.Explanation
